@@ -248,6 +248,18 @@ class LBCheck(BaseCheck):
           {'missing': bool(truth - eligible), 'extra': bool(eligible - truth)},
           {'step': w.step, 'missing': sorted(map(str, truth - eligible)), 'extra': sorted(map(str, eligible - truth))})
 
+    def chained_dispatch(done_req):
+      # from the response handler of the sink above the balancer: the completed request is not
+      # outstanding any more, a follow-up dispatched right here must see that
+      if not opened[0] or ss.pending or ss.loading or ss.closed or rng.random() > 0.1:
+        return
+      classes.add('dispatch-from-response-handler')
+      pre_ = snapshot()
+      r2 = w.dispatch(timeout=rng.choice([None, None, 3.0]))
+      stats['dispatches'] += 1
+      check_dispatch(r2, pre_)
+    w.on_delivery = chained_dispatch
+
     # ---------------------------------------------------------------- open
     opened = [False]
     open_ar = w.top.Open()
@@ -364,8 +376,12 @@ class LBCheck(BaseCheck):
 
     # ---------------------------------------------------------------- drain
     w.step += 1
-    for c in w.channels:
-      for r in list(c.inflight):
+    w.on_delivery = None        # no chained follow-ups any more: everything is to drain
+    for _round in range(4):
+      live_ = [r for c in w.channels for r in list(c.inflight)]
+      if not live_:
+        break
+      for r in live_:
         w.complete(r, 'reply')
     env.advance(4.0)       # let remaining timers fire
     check_removed()
